@@ -274,17 +274,19 @@ func quotedQualifierParser(prefix string) pars.Parser {
 			state.Pop()
 			return err
 		}
-		// Every further line of the value carries the indent of the table.
-		// A line that does not is not part of the value: the double quote
-		// that should have closed it is missing, and what was taken for it
-		// belongs to something else - a later feature, field or record.
+		// Every further line of the value is indented (by the indent of the
+		// table when gts wrote it, by less in files of other tools). A line
+		// that starts in the first column is not part of the value: the
+		// double quote that should have closed it is missing, and what was
+		// taken for it belongs to something else - a field, the sequence,
+		// the next record.
 		for rest := result.Token; ; {
 			i := bytes.IndexByte(rest, '\n')
 			if i < 0 {
 				break
 			}
 			rest = rest[i+1:]
-			if !bytes.HasPrefix(rest, p[1:]) {
+			if len(rest) > 0 && rest[0] != ' ' && rest[0] != '\t' {
 				line := rest
 				if j := bytes.IndexByte(line, '\n'); j >= 0 {
 					line = line[:j]
